@@ -560,7 +560,7 @@ class Run:
             return cache[name]
         w = self.world
         typ = w.types[name]
-        if mode == "snapshot" and typ == E and self.snap[name]["table"] is not None:
+        if mode in ("snapshot", "snapshot-late") and typ == E and self.snap[name]["table"] is not None:
             obj = S.build_table(*self.snap[name]["table"])
         elif name[0] == "n":
             obj = self._fresh_node(int(name[1:]), cache)
@@ -570,10 +570,16 @@ class Run:
             obj = S.build_tree(self._fresh_tree[name])
         else:
             st = w.creator[name]
-            out, obj = apply_op(st, lambda n: self.replica(n, cache, mode), w.fresh_point)
+            st_eff = st
+            if mode == "snapshot-late":
+                # a twin for ==/hash purposes: equality of derivative objects ignores compute_early, so the
+                # twin is built late (no simplification work); expressions still come from the snapshot
+                if st.get("early"):
+                    st_eff = dict(st, early=False)
+            out, obj = apply_op(st_eff, lambda n: self.replica(n, cache, mode), w.fresh_point)
             if obj is None:
                 raise ReplicaDiverged(name, out)
-            if w.switched.get(name):
+            if w.switched.get(name) and mode != "snapshot-late":
                 obj.as_expression()
             if typ == E and st["k"] in ("asx", "norm") and mode == "recipe":
                 try:
@@ -779,9 +785,14 @@ class Run:
                 twin = S.build_table(*snap["table"])
             else:
                 try:
-                    twin = self.replica(name, {}, mode="snapshot")
-                except ReplicaDiverged as e:
-                    return self._viol("C10", "twin-construction-failed", step, f"{name}: {e}")
+                    twin = self.replica(name, {}, mode="snapshot-late")
+                except ReplicaDiverged:
+                    # the cheap (late) twin cannot be built, e.g. the numeric route overflows where the early
+                    # object's symbolic route did not: build the twin with the declared configuration
+                    try:
+                        twin = self.replica(name, {}, mode="snapshot")
+                    except ReplicaDiverged as e:
+                        return self._viol("C10", "twin-construction-failed", step, f"{name}: {e}")
             try:
                 ok = (obj == twin) and (twin == obj) and hash(obj) == hash(twin)
             except Exception as e:      # noqa: BLE001
@@ -885,8 +896,12 @@ class Run:
             if do_replica and step["k"] != "hash":
                 v = self._replica_check(step, out)
             if v is None and do_snapshot:
-                v = self._snapshot_check_all(step)
-                if v is None:
+                v = self._snapshot_check_all(step)           # structure + repr of every pooled object: every step
+                self._steps_since_twin = getattr(self, "_steps_since_twin", 0) + 1
+                if v is None and (self._steps_since_twin >= 4 or obj is not None):
+                    # ==, both ways, and hash against freshly built twins: after every step that returned
+                    # an object, otherwise every 4th step, and once more at the end of the run
+                    self._steps_since_twin = 0
                     v = self._twin_equality_check(step)
                 if v is None and step["k"] in ("at", "compat", "lcomp", "dat", "eq"):
                     v = self._replica_check(step, out, mode="snapshot")
@@ -896,6 +911,9 @@ class Run:
                 # the live world may now hold runaway structures: stop this run here
                 self.stats["runs_aborted_after_runaway_op"] = self.stats.get("runs_aborted_after_runaway_op", 0) + 1
                 break
+        else:
+            if do_snapshot and not self.violations and self.scn["steps"] and getattr(self, "_steps_since_twin", 0):
+                self._twin_equality_check(self.scn["steps"][-1])
         return self
 
     def _count_evalfailed(self):
